@@ -38,11 +38,11 @@ add("C16", PBT_M + " at de-coupled joints; all 30 (driven,coupled) pairs enumera
     "forward and link poses equal the inner model at q'[c]=q[c]-s*q[d]; every inverse answer of the four entry points maps back through the coupled forward (model and library); two stacked couplings compose; nesting with Tool/Base/Frame.",
     "Trusted: harness model and stack composition.", "DESIGN.md section 5, C16")
 add("C17", "property-based testing: round trip rigid motion -> point images -> Frame::frame -> motion, oracle-decided rejection classes, model FK for forward_transformed",
-    "Triples from well conditioned to nearly collinear, far from the origin, perturbations around the 5 mm tolerance (guard 1e-9), exactly collinear integer-built sources/targets with the expected error type and flag, Frame::translation, forward_transformed pose/answers/order.",
+    "Triples from well conditioned to nearly collinear (isosceles corners included), far from the origin, motions that leave the first point in place, perturbations around the 5 mm tolerance (guard 1e-9), exactly collinear integer-built sources/targets with the expected error type and flag, Frame::translation, forward_transformed pose/answers/order.",
     "Trusted: conditioning bound 1e-13*(1+offset/scale)/sin(theta_min); harness model.", "DESIGN.md section 5, C17")
 
 add("C15", "property-based testing against an analytic (geometric) Jacobian built from the independent link model",
-    "Numeric Jacobian read through the public API equals (sign_i*(a_i x (p-o_i)); sign_i*a_i) within the differencing error for bare/Tool/Base/Tool-over-Base robots and steps 1e-7..1e-5; velocities invert it when cond < 1e4, torques are the transpose, isometry/vector/fixed entry points agree.",
+    "Numeric Jacobian read through the public API equals (sign_i*(a_i x (p-o_i)); sign_i*a_i) within the differencing error for bare/Tool/Base/Tool-over-Base robots (one in four over a parallelogram coupling, one in five modelled in millimetres) and steps 1e-7..1e-5; velocities invert it when cond < 1e4, torques are the transpose, isometry/vector/fixed entry points agree.",
     "Trusted: harness model; bound 2*eps*(1+R) + 20e-15*(1+R)/eps.", "DESIGN.md section 5, C15")
 add("C18", "property-based testing with a seeded library RNG (verif_hooks) against the arc oracle and the constraints' own compliant()",
     "Constraint sets of every shape (wrapping both positive / both negative / straddling zero / to==0, from-to > 2pi, equal, span >= 2pi), 100..300 draws each: every draw lies on its arc, is accepted by compliant(), and the call does not panic.",
@@ -60,8 +60,8 @@ add("C10", "property-based testing against a brute-force triangle-triangle dista
 add("C11", "differential property-based testing: robot-with-shape versus the hand-built documented stack filtered by the robot's own collides()",
     "Both constructors, four entry points: answers bit-equal to the stack's non-colliding answers in order; forward / link poses / limits / singularity delegated; positioned_robot places meshes at the stack's link poses.",
     "Trusted: C10 for collides() itself; harness model for the stack composition.", "DESIGN.md section 5, C11")
-add("C14", "property-based testing against a reference enumeration (12 candidates filtered by the arc oracle and the robot's own full collision check), multiset comparison over pool sizes",
-    "Collision-free initial vectors, from/to targets that fold the arm into earlier links / the base / environment boxes: the offered set equals the legal and free candidates exactly, for pools of 1/4/16 threads.",
+add("C14", "property-based testing against a reference enumeration (12 candidates filtered by the arc oracle and the robot's own full collision check), set comparison over pool sizes, with a cell-change history on the same robot",
+    "Collision-free initial vectors, from/to targets that fold the arm into earlier links / the base / environment boxes: the offered set equals the legal and free candidates exactly, for pools of 1/3/4/16 threads; windows clipped at an edge; an obstacle added to and removed from the robot's public environment between calls.",
     "Trusted: collides() (decided by C10), oracle A for limits.", "DESIGN.md section 5, C14")
 
 add("C12", "model-based property testing: generated planning histories (scene, start, pose polyline, planner settings) with a validity predicate over every waypoint of every returned plan, run under rayon pools of 1/4/16 threads",
